@@ -262,4 +262,23 @@ PROPS = {
                        "goroutine's own instances) each goroutine observes exactly its sequential results; the typing is justified by regenerated, "
                        "kernel-checked facts (only NewMigration assigns package-level state; no go statements).",
     },
+
+    "C04": {
+        "level": "proof",
+        "lean_modules": ["SqlizeModel.Props.C04"],
+        "theorems": ["Sqlize.C04.converges", "Sqlize.C04.next_diff_empty", "Sqlize.C04.down_returns", "Sqlize.C04.history_schema"],
+        "suites": [{"name": "history", "timeout": 3600}],
+        "corr_points": None,
+        "rule": "history suite: revision sequences M1..Mk (k = 2..8 quick, ..40 thorough) of random schemas and C01 change sets (drop table, drop "
+                "indexed column, change options, drop foreign key, several tables at once), starting from an empty history; the real workflow in Go: "
+                "load models, load history (accumulated text, or WriteFiles + FromMigrationFolder with one second between writes), Diff, append; after "
+                "each step the history is reloaded and diffed against a fresh load of the models (must be empty both ways, equal HashValue); the Lean "
+                "driver replays every recorded up migration on the reference engine (must build the models' schema at each step) and the recorded "
+                "downs in reverse (must reach the empty schema). 2 hand-written histories first. non-trivial = every history; distinct by sequence",
+        "trusted_base": COMMON_TB + PAIR_TB + ["the composition theorem assumes the one-step properties (C01, C02, C03, C05, C07) as hypotheses; their proved parts and findings are listed under those properties"],
+        "assumptions": ["file timestamps strictly increase (one write per second)", "old is not re-used after Diff"],
+        "explanation": "Proved for histories of any length: convergence, empty next diff, equal fingerprint and the way back, as an assume-guarantee "
+                       "composition of the one-step properties; the real multi-step workflow is driven on every run and every recorded migration is "
+                       "replayed on the reference engine.",
+    },
 }
